@@ -11,6 +11,7 @@ model in lock-step and calls the enabled oracles after every step:
            its stated fields agree with the model
 """
 import os, json, re
+import itertools
 import numpy as np
 from hypothesis import strategies as st
 from . import gens, rawdec
@@ -45,9 +46,12 @@ def st_append_arg(draw, valid_only=False):
 
 @st.composite
 def st_array_op(draw, shape_rank, extra=()):
-    o = draw(st.sampled_from(['append', 'append', 'iterappend', 'set', 'trunc', 'trunc', 'mode', 'reopen', 'ctx', 'copy', 'failappend', 'sibling', 'recreate', 'overwrite-refused', 'iterappend-x'] + list(extra)))
+    o = draw(st.sampled_from(['append', 'append', 'iterappend', 'set', 'trunc', 'trunc', 'mode', 'reopen', 'ctx', 'copy', 'failappend', 'sibling', 'recreate', 'overwrite-refused', 'iterappend-x', 'iterappend-nd'] + list(extra)))
     if o == 'append':
         return {'o': 'append', 'arg': draw(st_append_arg())}
+    if o == 'iterappend-nd':
+        return {'o': 'iterappend-nd', 'k': draw(st.integers(1, 3)), 'n': draw(st.integers(0, 3)), 'seed': draw(st.integers(0, 2 ** 31)),
+                'wrong': draw(st.sampled_from([False, False, True]))}
     if o == 'iterappend':
         nc = draw(st.integers(0, 4))
         return {'o': 'iterappend', 'chunks': [draw(st_append_arg(valid_only=True)) for _ in range(nc)],
@@ -82,7 +86,7 @@ def st_array_op(draw, shape_rank, extra=()):
         return {'o': 'sibling', 'start': draw(st_start()), 'via': draw(st.sampled_from(['create', 'create', 'open']))}
     if o == 'failappend':
         return {'o': 'failappend', 'chunks': [draw(st_append_arg(valid_only=True)) for _ in range(draw(st.integers(0, 3)))],
-                'kind': draw(st.sampled_from(['raise', 'badshape', 'unconv', 'interrupt']))}
+                'kind': draw(st.sampled_from(['raise', 'badshape', 'unconv', 'interrupt', 'halt']))}
     if o == 'ctx':
         inner = [draw(st.one_of(st.builds(lambda a: {'o': 'append', 'arg': a}, st_append_arg(valid_only=True)),
                                 st.just({'o': 'iterappend', 'chunks': [{'k': 'rows', 'n': 2, 'seed': 5}, {'k': 'zero', 'n': 1, 'seed': 6}], 'gen': True}),
@@ -97,10 +101,13 @@ def st_start(draw, max_rank=3):
     rank = draw(st.integers(1, max_rank))
     first = draw(st.sampled_from([0, 0, 1, 2, 3, 5]))
     shape = [first] + [draw(st.integers(1, 3)) for _ in range(rank - 1)]
+    zerotail = rank > 1 and draw(st.integers(0, 9)) == 0
+    if zerotail:          # rows without elements: shape (n, 0), (n, 2, 0) ... (creatable with an explicit chunk length)
+        shape[rank - 1] = 0          # (the last axis: nested lists cannot express extents behind an empty one)
     return {'dt': draw(gens.st_dt()), 'shape': shape, 'seed': draw(st.integers(0, 2 ** 31)),
             'how': draw(st.sampled_from(['asarray', 'asarray', 'create'])), 'mode': draw(st.sampled_from(['r+', 'r+', 'r'])),
             'meta': draw(st.booleans()), 'layout': draw(st.sampled_from(['C', 'C'] + gens.LAYOUTS)),
-            'chunklen': draw(st.sampled_from([None, 1, 2, 5])), 'dtspell': draw(st.sampled_from([0, 0, 0] + list(range(1, 16)))),
+            'chunklen': draw(st.sampled_from([1, 2, 5] if zerotail else [None, 1, 2, 5])), 'dtspell': draw(st.sampled_from([0, 0, 0] + list(range(1, 16)))),
             'owspell': draw(st.sampled_from([0, 0, 1, 2, 3]))}
 
 
@@ -194,6 +201,21 @@ def big_operand_specs():
                 own = {'k': 'layout', 'n': n // 2, 'seed': 6, 'layout': layout}
                 yield {'start': start, 'big': f'{mib}MiB', 'ops': [{'o': 'append', 'arg': big}, {'o': 'trunc', 'i': 3, 'by': 'obj'},
                                                                     {'o': 'iterappend', 'chunks': [{'k': 'rows', 'n': 1, 'seed': 7}, own, big], 'gen': True}]}
+
+
+def zero_extent_specs():
+    """Arrays whose rows have no elements - shape (n, 0), (n, 2, 0), (0, 0) - taken through appends, truncations, failing
+    appends and a reopen: the length changes while the number of stored values stays 0."""
+    for (t, bo), shape in itertools.product([('int32', '<'), ('float64', '>')], [[3, 0], [0, 0], [2, 2, 0], [4, 0, 3]]):
+        start = {'dt': {'t': t, 'bo': bo}, 'shape': shape, 'seed': 3, 'how': 'asarray', 'mode': 'r+', 'meta': False, 'chunklen': 2}
+        rows = lambda n, sd: {'k': 'rows', 'n': n, 'seed': sd}
+        for ops in ([{'o': 'append', 'arg': rows(2, 1)}, {'o': 'reopen', 'm': 'r+'}, {'o': 'append', 'arg': rows(1, 2)}],
+                    [{'o': 'append', 'arg': rows(3, 1)}, {'o': 'trunc', 'i': 1, 'by': 'obj'}, {'o': 'iterappend', 'chunks': [rows(1, 2), rows(2, 3)], 'gen': True}],
+                    [{'o': 'iterappend', 'chunks': [rows(2, 1)], 'gen': False}, {'o': 'failappend', 'chunks': [rows(1, 2)], 'kind': 'raise'}, {'o': 'trunc', 'i': 2, 'by': 'str'}],
+                    [{'o': 'append', 'arg': rows(1, 1)}, {'o': 'mode', 'm': 'r'}, {'o': 'mode', 'm': 'r+'}, {'o': 'append', 'arg': {'k': 'zero', 'n': 1, 'seed': 1}},
+                     {'o': 'append', 'arg': rows(2, 2)}]):
+            yield {'start': start, 'ops': ops}
+            yield {'start': dict(start, how='create'), 'ops': ops}
 
 
 def trunc_grid_specs(nmax=130):
@@ -602,6 +624,25 @@ class ArrayRun:
                 return False
             self.m = newm
             return self.observe(tag)
+        if o == 'iterappend-nd':
+            # the iterable is ONE ndarray: its first axis runs over the chunks - shape (k, n) + row shape appends k chunks of n rows
+            # ('wrong': an ndarray shaped like a single chunk, whose "chunks" are therefore single rows of too low a rank: refused)
+            if self.mode == 'r' or getattr(self, 'in_ctx', False):
+                return True
+            self.kinds.append('iterappend')
+            self.out.cls('iterappend:ndarray-as-iterable')
+            if op.get('wrong') and m.ndim > 1:
+                block = gens.build_array(m.dtype, (2,) + m.shape[1:], {'m': 'raw', 's': op['seed']})
+                self.out.cls('rejected-call')
+                return self.expect_reject('iterappend-nd:rows-as-chunks', lambda: a.iterappend(block))
+            block = gens.build_array(m.dtype, (op['k'], op['n']) + m.shape[1:], {'m': 'raw', 's': op['seed']})
+            newm = m
+            for i_ in range(op['k']):
+                newm = model_append(newm, block[i_])
+            if not self.expect_ok('iterappend-nd', lambda: a.iterappend(block)):
+                return False
+            self.m = newm
+            return self.observe('iterappend-nd')
         if o == 'iterappend-x':
             # unusual but legitimate chunk sources for ONE iterappend call:
             #   manychunks    - more than a thousand (two thousand) one-row chunks
@@ -648,7 +689,7 @@ class ArrayRun:
                     yield c1
                     try:
                         seen = a[:]
-                        c = a.copy(cpath)
+                        c = a.copy(cpath, **({"chunklen": 2} if 0 in m.shape[1:] else {}))
                         if c[:].tobytes() != seen.tobytes() or tuple(c.shape) != seen.shape:
                             problems.append('copy taken during the append differs from what the handle showed at that moment')
                     except Exception as e:
@@ -767,11 +808,14 @@ class ArrayRun:
             class _Boom(Exception):
                 pass
 
+            class _Halt(BaseException):
+                pass
+
             def src():
                 for c in chunks:
                     yield c
                 if bad is None:
-                    raise (KeyboardInterrupt() if fk == 'interrupt' else _Boom('data source failed'))      # interrupt: Ctrl-C while the source runs
+                    raise (KeyboardInterrupt() if fk == 'interrupt' else _Halt('stop') if fk == 'halt' else _Boom('data source failed'))      # interrupt: Ctrl-C while the source runs; halt: an application's own BaseException
                 yield bad
             newm = m
             for c in chunks:
@@ -955,6 +999,8 @@ class ArrayRun:
             self.kinds.append('copy')
             cpath = os.path.join(self.d, f'copy{self.stepno}.darr')
             kw = {} if op.get('chunklen') is None else {'chunklen': op['chunklen']}
+            if 0 in m.shape[1:] and not kw:
+                kw = {'chunklen': 2}          # (rows without elements need an explicit chunk length, DESIGN 8.7 c)
             try:
                 c = a.copy(cpath, accessmode='r+', **kw)
             except Exception as e:
